@@ -338,6 +338,29 @@ def boundary_scripts(path):
                 acts += (pushes + [seg(83)]) if order == 0 else ([seg(83)] + pushes)
                 acts += [dict(name="Flush", e=1), dict(name="Tick", a=100), dict(name="Flush", e=1)]
                 scripts.append(dict(meta=dict(cfg=cfg, label="probe-pack-%d-%d" % (mtu, k), forged=True), actions=acts))
+    # Family 'zero-window': the sender over-estimates the receiver's window (a fresh sender assumes 32, the receiver has w < 32), a
+    # burst of w+1 .. 2w segments arrives while the application is not reading: w fill the delivery queue, the rest waits out of
+    # order behind it; every segment is acknowledged individually while the cumulative acknowledgement stops at w and the window
+    # advertised is 0. Then the application drains the queue and the receiver's only unsolicited window update is LOST (with or
+    # without everything else in flight). More data is written; the network heals (Settle): the sender's window probe must get
+    # the transfer going again -- both drives.
+    for w_ in (1, 2, 4):
+        for burst in sorted({w_ + 1, 2 * w_}):
+            for nodelay in (0, 1):
+                for lose in ("wins", "all-then-wins"):
+                    for upd in (0, 1):
+                        mss = 32
+                        cfg = dict(mtu=24 + mss, sndwnd=32, rcvwnd=w_, nodelay=nodelay, interval=10 if nodelay else 100, resend=0, nc=1, stream=1,
+                                   acknodelay=0)
+                        acts = [dict(name="Send", e=1, a=mss)] * burst + [dict(name="Flush", e=1)]
+                        acts += [dict(name="DeliverAny")] * burst                     # all data arrives, nobody reads
+                        acts += [dict(name="Flush", e=2)] + [dict(name="DeliverAny")] * (burst + 2)   # the acknowledgements (wnd = 0) arrive
+                        if lose == "all-then-wins":
+                            acts += [dict(name="Flush", e=1), dict(name="DropAll")]
+                        acts += [dict(name="Recv", e=2, a=70000)] * (2 * burst + 2)   # the application drains: window re-opens
+                        acts += [dict(name="Flush", e=2), dict(name="DropAll")]        # ... and the window update is lost
+                        acts += [dict(name="Send", e=1, a=mss), dict(name="Send", e=1, a=mss // 2), dict(name="Settle", a=upd)]
+                        scripts.append(dict(meta=dict(cfg=cfg, label="zero-window-%d-%d-%s" % (w_, burst, lose)), actions=acts))
     with open(path, "w") as f:
         for sc in scripts:
             f.write(json.dumps(sc) + "\n")
@@ -487,7 +510,7 @@ def check_c04(tier, replay):
                 ("forged", sim_cfg("stream", 60, forged="ForgedAll")), ("forgedfast", sim_cfg("fastcc", 60, forged="ForgedAll", ticks="{1, 10, 30}")),
                 ("wnd1", sim_cfg("wnd1", 80))]
     return generic_core_check(
-        "C04", tier, replay, "model_checking", mc, sim, "TestCoreReplay$|TestCoreDrive$", inv, known_map=known, known_mc=kmc,
+        "C04", tier, replay, "model_checking", mc, sim, "TestCoreReplay$|TestCoreDrive$|TestCoreScripts$", inv, known_map=known, known_mc=kmc,
         rule=("as C01 plus adversarial peers: forged segments from boundary classes (sn around rcv_nxt / rcv_nxt+rcv_wnd / far, "
               "una before/inside/beyond the send window, wnd 0/1/65535, forged ts, bad conv/len/cmd) both in the TLC model and in "
               "random runs; invariants evaluated on the observed state after every API call and datagram, admission checked at "
@@ -600,7 +623,7 @@ def check_c02(tier, replay):
                 ("fastcc", sim_cfg("fastcc", 100, ticks="{1, 10, 30}")), ("wnd1", sim_cfg("wnd1", 100)),
                 ("outage", sim_cfg("stream", 60, ticks="{100, 10000, 60000}", maxtime=3000000, drop=12))]
     return generic_core_check(
-        "C02", tier, replay, "model_checking", mc, sim, "TestCoreReplay$|TestCoreDrive$|TestCoreFates$", inv, known_map=known, known_mc=kmc,
+        "C02", tier, replay, "model_checking", mc, sim, "TestCoreReplay$|TestCoreDrive$|TestCoreFates$|TestCoreScripts$", inv, known_map=known, known_mc=kmc,
         rule=("TLC explores every fate assignment within the fault budget; at any reachable state the network may heal, after which the "
               "schedule is deterministic (deliver in order, read, flush both ends every interval) and the exact timed model must be "
               "drained within HealBound (a wedge shows as a bound violation; no liveness abstraction is needed because the healed "
@@ -635,7 +658,7 @@ def check_c03(tier, replay):
         return [("wnd1", sim_cfg("wnd1", 100, ticks="{100, 500, 5000}", maxtime=600000)),
                 ("stream", sim_cfg("stream", 100, ticks="{100, 500, 120000}", maxtime=3000000))]
     return generic_core_check(
-        "C03", tier, replay, "model_checking", mc, sim, "TestCoreReplay$|TestCoreStall$", inv, known_map=known,
+        "C03", tier, replay, "model_checking", mc, sim, "TestCoreReplay$|TestCoreStall$|TestCoreScripts$", inv, known_map=known,
         rule=("TLC: the receiving application does not read until the heal (receive windows 1..3, with and without congestion control), "
               "any datagram may be lost within the budget (so in particular every WASK/WINS/ACK of an interval), the C04 bounds and "
               "Prefix hold throughout and after the heal the transfer completes within HealBound (which includes the probe back-off). "
